@@ -401,7 +401,7 @@ func (ex *Exec) makeSlice(st *State, elem types.Type, n, c *Term, instr ssa.Inst
 		ex.throwRuntime(st, "makeslice", "makeslice: cap out of range", instr)
 	}
 	w := scalarWidth(elem)
-	if w != 0 && !c.IsConst() || (w != 0 && c.IsConst() && c.c > 1<<16) {
+	if w != 0 && !c.IsConst() || (w != 0 && c.IsConst() && c.c > 1024) {
 		ex.account(st, tb.Mul(c, ex.c64(esz)), instr)
 		o := st.newObj(ObjSmt, elem, "make")
 		o.Arr = tb.ConstArr(tb.Const(0, w))
